@@ -212,8 +212,10 @@ class Interp:
     def _inst(self, st):
         if "inst" not in st:
             return {}
+        targs = [self.tb.arg(a) for a in st["targs"]]
+        # (type_args is a Sequence: a tuple every other time)
         return {"instantiation": self.tb.func(st["inst"]),
-                "type_args": [self.tb.arg(a) for a in st["targs"]]}
+                "type_args": tuple(targs) if sum(map(ord, st["id"])) % 2 else targs}
 
     def st_call(self, b, st):
         f = self.nodes[st["f"]]
@@ -354,7 +356,9 @@ class Interp:
 
         mode = st["mode"]
         if mode == "add":
-            tl = b.add_tail_loop(self.wires(st["just"]), self.wires(st["rest"]))
+            # (Sequences of wires: tuples every other time)
+            seq = tuple if sum(map(ord, st["id"])) % 2 else list
+            tl = b.add_tail_loop(seq(self.wires(st["just"])), seq(self.wires(st["rest"])))
         else:
             tl = TailLoop(self.row(st["jtys"]), self.row(st["rtys"]))
         self.bind(st["params"], tl.inputs(), tl.hugr)
@@ -368,7 +372,8 @@ class Interp:
             n = tl.to_node()
             self.handles.append(("builder:TailLoop", tl, len(st["outs"])))
         else:
-            n = b.insert_tail_loop(tl, self.wires(st["just"]), self.wires(st["rest"]))
+            seq = tuple if sum(map(ord, st["id"])) % 2 else list
+            n = b.insert_tail_loop(tl, seq(self.wires(st["just"])), seq(self.wires(st["rest"])))
             self.handles.append(("insert_tail_loop", n, len(st["outs"])))
         self.nodes[st["id"]] = n
         for i, wid in enumerate(st["outs"]):
